@@ -10,9 +10,9 @@
 (***************************************************************************)
 EXTENDS TraceLib
 
-VARIABLES l, run, ih, chain, top, phase, got, lastH, nextExec, fresh, maxExec, onDA, finals, cur, chunks, cleanStop, lastIncl, viol
+VARIABLES l, run, ih, chain, top, phase, got, lastH, nextExec, fresh, maxExec, onDA, finals, cur, chunks, cleanStop, lastIncl, pf, viol
 
-vars == <<l, run, ih, chain, top, phase, got, lastH, nextExec, fresh, maxExec, onDA, finals, cur, chunks, cleanStop, lastIncl, viol>>
+vars == <<l, run, ih, chain, top, phase, got, lastH, nextExec, fresh, maxExec, onDA, finals, cur, chunks, cleanStop, lastIncl, pf, viol>>
 
 NoB == [h |-> 0, hh |-> 0, hash |-> "?", prev |-> "?", t |-> 0, txs |-> <<>>, app |-> <<>>, appok |-> FALSE,
         dh |-> FALSE, sig |-> "none", ssig |-> "none", meta |-> "none", cid |-> FALSE, idx |-> FALSE, dc |-> "?"]
@@ -38,13 +38,15 @@ Same(b, c) == b.hash = c.hash /\ b.txs = c.txs /\ b.app = c.app /\ b.appok /\ b.
 Rcvd(o) == got \cup {<<d.kind, d.h>> : d \in {x \in onDA : x.dah < o.daCur}}
 
 ObsChecks(o) == <<
-    <<"C09.CursorMatches", o.up => o.daCur = cur, "the DA scan cursor is not where the fetch history puts it (moved past a height that was not fetched successfully, or failed to move)">>,
+    <<"C09.CursorMatches", (o.up /\ o.tag # "restart") => o.daCur = cur, "the DA scan cursor is not where the fetch history puts it (moved past a height that was not fetched successfully, or failed to move)">>,
     <<"C09.HandedToSync", o.up => \A d \in onDA : (d.dah < o.daCur /\ d.h > o.height /\ d.h <= o.height + 12 /\ ~AliasSeen(d)) =>
           IF d.kind = "hdr" THEN \E i \in 1 .. Len(o.cH) : o.cH[i] = d.h ELSE \E i \in 1 .. Len(o.cD) : o.cD[i] = d.h,
         "a genuine blob at a DA height the scan has moved past was not handed to sync">>,
     <<"C02.Prefix", \A h \in ih .. o.height : HasBlock(o.blocks, h) /\ Same(BlockAt(o.blocks, h), C(h)), "a height up to the node's chain height does not hold the proposer's block">>,
     <<"C05.BlocksPresent", \A h \in ih .. o.height : HasBlock(o.blocks, h) /\ Same(BlockAt(o.blocks, h), C(h)) /\ BlockAt(o.blocks, h).idx, "a height up to the recorded chain height has no retrievable block identical to the proposer's">>,
     <<"C03.OnlyGenuine", \A h \in ih .. o.height : BlockAt(o.blocks, h).sig = "P" /\ BlockAt(o.blocks, h).ssig = "P", "a block in the node's chain is not signed by the genesis proposer's key">>,
+    <<"C03.StoredOnlyProposersData", \A h \in ih .. MinOf(o.height, top) : HasBlock(o.blocks, h) => BlockAt(o.blocks, h).txs = C(h).txs /\ BlockAt(o.blocks, h).dh,
+        "a block in the node's chain holds transaction data the proposer did not sign for that height">>,
     <<"C03.InclSound", \A h \in ih .. MaxOf(o.incl, o.durIncl) : h <= top =>
           /\ (\E d \in onDA : d.kind = "hdr" /\ d.h = h)
           /\ (IsEmptyBlk(h) \/ (\E d \in onDA : d.kind = "data" /\ d.h = h) \/ (\E d \in onDA : d.kind = "data" /\ C(d.h).txs = C(h).txs)),
@@ -67,7 +69,7 @@ ObsChecks(o) == <<
 
 Init ==
     /\ l = 1 /\ run = "" /\ ih = 1 /\ chain = <<>> /\ top = 0 /\ phase = "" /\ got = {} /\ lastH = 0
-    /\ nextExec = 1 /\ fresh = FALSE /\ maxExec = 0 /\ onDA = {} /\ finals = {} /\ cur = 1 /\ chunks = 0 /\ cleanStop = FALSE /\ lastIncl = 0 /\ viol = <<>>
+    /\ nextExec = 1 /\ fresh = FALSE /\ maxExec = 0 /\ onDA = {} /\ finals = {} /\ cur = 1 /\ chunks = 0 /\ cleanStop = FALSE /\ lastIncl = 0 /\ pf = FALSE /\ viol = <<>>
 
 e == Trace[l]
 Is(name) == l <= N /\ e.ev = name
@@ -77,23 +79,23 @@ Full == "node" \in DOMAIN e /\ e.node = "full"
 TReset ==
     /\ Is("Reset") /\ Adv
     /\ run' = e.run /\ ih' = e.ih /\ chain' = <<>> /\ top' = 0 /\ phase' = "" /\ got' = {} /\ lastH' = 0
-    /\ nextExec' = e.ih /\ fresh' = FALSE /\ maxExec' = e.ih - 1 /\ onDA' = {} /\ finals' = {} /\ cur' = (IF "dastart" \in DOMAIN e THEN e.dastart ELSE 1) /\ chunks' = 0 /\ cleanStop' = FALSE /\ lastIncl' = 0
+    /\ nextExec' = e.ih /\ fresh' = FALSE /\ maxExec' = e.ih - 1 /\ onDA' = {} /\ finals' = {} /\ cur' = (IF "dastart" \in DOMAIN e THEN e.dastart ELSE 1) /\ chunks' = 0 /\ cleanStop' = FALSE /\ lastIncl' = 0 /\ pf' = FALSE
     /\ UNCHANGED viol
 
 TChain ==
     /\ Is("Chain") /\ Adv
     /\ chain' = e.blocks /\ top' = e.top
-    /\ UNCHANGED <<run, ih, phase, got, lastH, nextExec, fresh, maxExec, onDA, finals, cur, chunks, cleanStop, lastIncl, viol>>
+    /\ UNCHANGED <<pf, run, ih, phase, got, lastH, nextExec, fresh, maxExec, onDA, finals, cur, chunks, cleanStop, lastIncl, viol>>
 
 TPhase ==
     /\ Is("Phase") /\ Adv /\ phase' = e.name
-    /\ UNCHANGED <<run, ih, chain, top, got, lastH, nextExec, fresh, maxExec, onDA, finals, cur, chunks, cleanStop, lastIncl, viol>>
+    /\ UNCHANGED <<pf, run, ih, chain, top, got, lastH, nextExec, fresh, maxExec, onDA, finals, cur, chunks, cleanStop, lastIncl, viol>>
 
 TDeliver ==
     /\ Is("Deliver") /\ Adv
     /\ got' = IF e.via \in {"chan", "p2p", "queued", "persistent-p2p"} THEN got \cup {<<e.kind, e.h>>} ELSE got
     /\ onDA' = IF e.via \in {"da", "queued"} THEN onDA \cup {[kind |-> e.kind, h |-> e.h, dah |-> e.dah]} ELSE onDA
-    /\ UNCHANGED <<run, ih, chain, top, phase, lastH, nextExec, fresh, maxExec, finals, cur, chunks, cleanStop, lastIncl, viol>>
+    /\ UNCHANGED <<pf, run, ih, chain, top, phase, lastH, nextExec, fresh, maxExec, finals, cur, chunks, cleanStop, lastIncl, viol>>
 
 TObs ==
     /\ Is("Obs") /\ Full /\ Adv
@@ -102,7 +104,7 @@ TObs ==
     /\ lastIncl' = (IF e.up THEN e.incl ELSE lastIncl)
     /\ cur' = IF e.tag = "restart" THEN e.daCur ELSE cur
     /\ chunks' = IF e.tag = "restart" THEN 0 ELSE chunks
-    /\ UNCHANGED <<run, ih, chain, top, phase, got, nextExec, fresh, maxExec, onDA, finals, cleanStop>>
+    /\ UNCHANGED <<pf, run, ih, chain, top, phase, got, nextExec, fresh, maxExec, onDA, finals, cleanStop>>
 
 TExec ==
     /\ Is("ExecTxs") /\ Full /\ Adv
@@ -110,17 +112,19 @@ TExec ==
           <<"C02.AppliedInOrder", e.ok => IF fresh THEN e.h >= ih /\ e.h <= maxExec + 1 ELSE e.h = nextExec,
               "execution layer asked to execute a height out of order">>,
           <<"C02.AppliedProposersTxs", e.ok => e.txs = C(e.h).txs /\ e.prevok /\ e.prev = ChainRootBefore(e.h),
-              "executed transactions / previous root are not the proposer's for that height">>
+              "executed transactions / previous root are not the proposer's for that height">>,
+          <<"C03.ExecutedOnlyProposersData", (e.h >= ih /\ e.h <= top) => e.txs = C(e.h).txs,
+              "transaction data that the proposer did not sign for this height was handed to the execution layer">>
           >>, l, run)
     /\ nextExec' = IF e.ok THEN e.h + 1 ELSE nextExec
     /\ maxExec' = IF e.ok THEN MaxOf(maxExec, e.h) ELSE maxExec
     /\ fresh' = IF e.ok THEN FALSE ELSE fresh
-    /\ UNCHANGED <<run, ih, chain, top, phase, got, lastH, onDA, finals, cur, chunks, cleanStop, lastIncl>>
+    /\ UNCHANGED <<pf, run, ih, chain, top, phase, got, lastH, onDA, finals, cur, chunks, cleanStop, lastIncl>>
 
 TFinal ==
     /\ Is("ExecFinal") /\ Full /\ Adv
     /\ finals' = IF e.ok THEN finals \cup {e.h} ELSE finals
-    /\ UNCHANGED <<run, ih, chain, top, phase, got, lastH, nextExec, fresh, maxExec, onDA, cur, chunks, cleanStop, lastIncl, viol>>
+    /\ UNCHANGED <<pf, run, ih, chain, top, phase, got, lastH, nextExec, fresh, maxExec, onDA, cur, chunks, cleanStop, lastIncl, viol>>
 
 \* header-only node: what go-header admitted to the store it serves to light clients
 TLight ==
@@ -129,7 +133,7 @@ TLight ==
           <<"C03.LightOnlyGenuine", e.res = "admitted" => e.sig = "P" /\ e.hash = C(e.h).hash, "a header not signed by the proposer's key was admitted to the header store of a header-only node">>,
           <<"C03.LightFollows", e.class = "genuine" => e.res = "admitted", "third-party material prevented the header-only node from admitting the proposer's header">>
           >>, l, run)
-    /\ UNCHANGED <<run, ih, chain, top, phase, got, lastH, nextExec, fresh, maxExec, onDA, finals, cur, chunks, cleanStop, lastIncl>>
+    /\ UNCHANGED <<pf, run, ih, chain, top, phase, got, lastH, nextExec, fresh, maxExec, onDA, finals, cur, chunks, cleanStop, lastIncl>>
 
 \* fetch history of the scan: the node must ask for exactly the cursor height; the cursor moves on after
 \* "nothing here" or after the listing and every id chunk were fetched
@@ -138,18 +142,18 @@ TGetIDs ==
     /\ viol' = viol \o Failed(<< <<"C09.ScansInOrder", e.dah = cur, "the scan examined a DA height other than the next unexamined one">> >>, l, run)
     /\ cur' = IF e.dah = cur /\ e.res = "notfound" THEN cur + 1 ELSE cur
     /\ chunks' = IF e.res \in {"ok", "okchunkerr"} THEN (e.nids + 99) \div 100 ELSE 0
-    /\ UNCHANGED <<run, ih, chain, top, phase, got, lastH, nextExec, fresh, maxExec, onDA, finals, cleanStop, lastIncl>>
+    /\ UNCHANGED <<pf, run, ih, chain, top, phase, got, lastH, nextExec, fresh, maxExec, onDA, finals, cleanStop, lastIncl>>
 
 TGet ==
     /\ Is("DAGet") /\ phase = "sync" /\ Adv
     /\ chunks' = IF e.res = "ok" /\ chunks > 0 THEN chunks - 1 ELSE 0
     /\ cur' = IF e.res = "ok" /\ chunks = 1 /\ e.dah = cur THEN cur + 1 ELSE cur
-    /\ UNCHANGED <<run, ih, chain, top, phase, got, lastH, nextExec, fresh, maxExec, onDA, finals, cleanStop, lastIncl, viol>>
+    /\ UNCHANGED <<pf, run, ih, chain, top, phase, got, lastH, nextExec, fresh, maxExec, onDA, finals, cleanStop, lastIncl, viol>>
 
 TCrash ==
     /\ Is("Crash") /\ Full /\ Adv
     /\ got' = {} /\ fresh' = TRUE
-    /\ UNCHANGED <<run, ih, chain, top, phase, lastH, nextExec, maxExec, onDA, finals, cur, chunks, cleanStop, lastIncl, viol>>
+    /\ UNCHANGED <<pf, run, ih, chain, top, phase, lastH, nextExec, maxExec, onDA, finals, cur, chunks, cleanStop, lastIncl, viol>>
 
 \* the process was stopped without an orderly shutdown: volatile caches are gone
 TStop ==
@@ -157,21 +161,29 @@ TStop ==
     /\ got' = IF e.clean THEN got ELSE {}
     /\ fresh' = IF e.clean THEN fresh ELSE TRUE
     /\ cleanStop' = e.clean
-    /\ UNCHANGED <<run, ih, chain, top, phase, lastH, nextExec, maxExec, onDA, finals, cur, chunks, lastIncl, viol>>
+    /\ UNCHANGED <<pf, run, ih, chain, top, phase, lastH, nextExec, maxExec, onDA, finals, cur, chunks, lastIncl, viol>>
 
 TRestart ==
     /\ Is("Restart") /\ Full /\ Adv
     /\ viol' = viol \o Failed(<< <<"C05.RestartFailed", e.ok, "node cannot start on an image it wrote itself">> >>, l, run)
     \* a start that does not follow an orderly shutdown may re-execute the block that was in flight
     /\ fresh' = (IF cleanStop THEN fresh ELSE TRUE) /\ cleanStop' = FALSE
-    /\ UNCHANGED <<run, ih, chain, top, phase, got, lastH, nextExec, maxExec, onDA, finals, cur, chunks, lastIncl>>
+    /\ UNCHANGED <<pf, run, ih, chain, top, phase, got, lastH, nextExec, maxExec, onDA, finals, cur, chunks, lastIncl>>
+
+\* pf: unsigned third-party transaction data was pushed to the node over P2P in this run.  The listed
+\* properties promise that such data is never applied (C03), but only for third-party material on the DA
+\* layer that it does not halt the node: a halt after it is not a verdict here (a panic always is).
+TInject ==
+    /\ Is("Inject") /\ Adv
+    /\ pf' = (pf \/ e.via = "p2pdata")
+    /\ UNCHANGED <<run, ih, chain, top, phase, got, lastH, nextExec, fresh, maxExec, onDA, finals, cur, chunks, cleanStop, lastIncl, viol>>
 
 TNodeErr ==
     /\ (Is("NodeErr") \/ Is("Panic")) /\ Full /\ Adv
-    /\ viol' = viol \o Failed(<< <<"C02.Halted", FALSE, "the node halted (sync error or panic) on genuine / third-party traffic">>,
-                                 <<"C03.Halted", FALSE, "the node halted (sync error or panic) on genuine / third-party traffic">> >>, l, run)
+    /\ viol' = viol \o Failed(<< <<"C02.Halted", pf /\ e.ev = "NodeErr", "the node halted (sync error or panic) on genuine / third-party traffic">>,
+                                 <<"C03.Halted", pf /\ e.ev = "NodeErr", "the node halted (sync error or panic) on genuine / third-party traffic">> >>, l, run)
     /\ got' = {} /\ fresh' = TRUE
-    /\ UNCHANGED <<run, ih, chain, top, phase, lastH, nextExec, maxExec, onDA, finals, cur, chunks, cleanStop, lastIncl>>
+    /\ UNCHANGED <<pf, run, ih, chain, top, phase, lastH, nextExec, maxExec, onDA, finals, cur, chunks, cleanStop, lastIncl>>
 
 TQuiesce ==
     /\ Is("Quiesce") /\ Adv
@@ -183,16 +195,16 @@ TQuiesce ==
               "every block is on the DA layer and applied, but the node's DA-included height did not reach the chain height">>,
           <<"C02.Converged.alias", ~(e.up /\ e.height < e.top /\ AliasStall(e.height)), "stuck below a block whose tx list equals another block's (data de-duplicated by commitment)">>
           >>, l, run)
-    /\ UNCHANGED <<run, ih, chain, top, phase, got, lastH, nextExec, fresh, maxExec, onDA, finals, cur, chunks, cleanStop, lastIncl>>
+    /\ UNCHANGED <<pf, run, ih, chain, top, phase, got, lastH, nextExec, fresh, maxExec, onDA, finals, cur, chunks, cleanStop, lastIncl>>
 
 TOther ==
     /\ l <= N /\ Adv
-    /\ ~(e.ev \in {"Reset", "Chain", "Phase", "Deliver", "Quiesce", "LightOffer"})
+    /\ ~(e.ev \in {"Reset", "Chain", "Phase", "Deliver", "Quiesce", "LightOffer", "Inject"})
     /\ ~(e.ev \in {"DAGetIDs", "DAGet"} /\ phase = "sync")
     /\ ~(Full /\ e.ev \in {"Obs", "ExecTxs", "Crash", "Restart", "NodeErr", "Panic", "Stop", "ExecFinal"})
-    /\ UNCHANGED <<run, ih, chain, top, phase, got, lastH, nextExec, fresh, maxExec, onDA, finals, cur, chunks, cleanStop, lastIncl, viol>>
+    /\ UNCHANGED <<pf, run, ih, chain, top, phase, got, lastH, nextExec, fresh, maxExec, onDA, finals, cur, chunks, cleanStop, lastIncl, viol>>
 
-Next == TGetIDs \/ TGet \/ TLight \/ TFinal \/ TStop \/ TReset \/ TChain \/ TPhase \/ TDeliver \/ TObs \/ TExec \/ TCrash \/ TRestart \/ TNodeErr \/ TQuiesce \/ TOther
+Next == TInject \/ TGetIDs \/ TGet \/ TLight \/ TFinal \/ TStop \/ TReset \/ TChain \/ TPhase \/ TDeliver \/ TObs \/ TExec \/ TCrash \/ TRestart \/ TNodeErr \/ TQuiesce \/ TOther
 Spec == Init /\ [][Next]_vars
 Finish == (l = N + 1) => ndJsonSerialize("viol.ndjson", viol)
 Consumed == TLCGet("stats").diameter = N + 1
